@@ -252,7 +252,12 @@ fn census_item(src: &str, a: &Args, ctx: &Ctx, state: &mut CensusState) -> Resul
             out.push_str(&format!("/C0={}", hex(server.reconnect_challenge_data())));
             for i in 0..state.refresh {
                 // alternate accepted and rejected attempts
-                if i % 2 == 0 {
+                if i % 3 == 2 {
+                    // aliased input: the attempt echoes the challenge on offer
+                    let cur = *server.reconnect_challenge_data();
+                    let ok = server.verify_reconnection_attempt(cur, [0x5a; 20]);
+                    out.push_str(&format!("/R{}={}", if ok { "Z" } else { "e" }, hex(server.reconnect_challenge_data())));
+                } else if i % 3 == 0 {
                     let r = client.calculate_reconnect_values(*server.reconnect_challenge_data());
                     out.push_str(&format!("/CC={}", hex(&r.challenge_data)));
                     let ok = server.verify_reconnection_attempt(r.challenge_data, r.proof);
@@ -264,6 +269,58 @@ fn census_item(src: &str, a: &Args, ctx: &Ctx, state: &mut CensusState) -> Resul
             }
             hook::log_take();
             Ok(out)
+        }
+        "mixed" => {
+            // a randomly ordered mix of every operation that draws 16- or 32-byte values, on one thread; every value
+            // that is handed out directly is reported, tagged with its kind
+            state.mix = state.mix.wrapping_mul(6364136223846793005).wrapping_add(1442695040888963407);
+            let pick = (state.mix >> 33) % 8;
+            match pick {
+                0 => {
+                    let v = SrpVerifier::from_username_and_password(state.u.clone(), state.p.clone());
+                    Ok(format!("salt={}", hex(v.salt())))
+                }
+                1 => {
+                    let p = state.ver.clone().into_proof();
+                    state.last_proof = Some(p.clone());
+                    Ok(format!("B={}", hex(p.server_public_key())))
+                }
+                2 => {
+                    let proof = state.ver.clone().into_proof();
+                    let pk = PublicKey::from_le_bytes(*proof.server_public_key()).map_err(|e| format!("own B invalid: {}", e))?;
+                    let chal = SrpClientChallenge::new(state.u.clone(), state.p.clone(), wow_srp::GENERATOR, wow_srp::LARGE_SAFE_PRIME_LITTLE_ENDIAN, pk, *proof.salt());
+                    let a_pub = *chal.client_public_key();
+                    let apk = PublicKey::from_le_bytes(a_pub).map_err(|e| format!("own A invalid: {}", e))?;
+                    let b_pub = *proof.server_public_key();
+                    match proof.into_server(apk, *chal.client_proof()) {
+                        Ok((server, m2)) => {
+                            let c0 = *server.reconnect_challenge_data();
+                            state.server = Some(server);
+                            if let Ok(cl) = chal.verify_server_proof(m2) {
+                                state.client = Some(cl);
+                            }
+                            Ok(format!("B={}/A={}/chal={}", hex(&b_pub), hex(&a_pub), hex(&c0)))
+                        }
+                        Err(e) => Err(format!("honest login refused: {}", e)),
+                    }
+                }
+                3 | 4 => match state.server.as_mut() {
+                    Some(s) => {
+                        let _ = s.verify_reconnection_attempt([pick as u8; 16], [0u8; 20]);
+                        Ok(format!("chal={}", hex(s.reconnect_challenge_data())))
+                    }
+                    None => Ok(format!("isalt={}", hex(&wow_srp::integrity::get_salt_value()))),
+                },
+                5 => match (state.client.as_ref(), state.server.as_ref()) {
+                    (Some(c), Some(s)) => {
+                        let r = c.calculate_reconnect_values(*s.reconnect_challenge_data());
+                        Ok(format!("cchal={}", hex(&r.challenge_data)))
+                    }
+                    _ => Ok(format!("psalt={}", hex(&wow_srp::pin::get_pin_salt()))),
+                },
+                6 => Ok(format!("isalt={}", hex(&wow_srp::integrity::get_salt_value()))),
+                _ => Ok(format!("psalt={}", hex(&wow_srp::pin::get_pin_salt()))),
+            }
         }
         "vseed" => Ok(hex(&vanilla_header::ProofSeed::new().seed().to_le_bytes())),
         "tseed" => Ok(hex(&tbc_header::ProofSeed::new().seed().to_le_bytes())),
@@ -282,6 +339,10 @@ fn census_item(src: &str, a: &Args, ctx: &Ctx, state: &mut CensusState) -> Resul
 
 #[derive(Clone)]
 struct CensusState {
+    mix: u64,
+    last_proof: Option<SrpProof>,
+    server: Option<SrpServer>,
+    client: Option<SrpClient>,
     u: NormalizedString,
     p: NormalizedString,
     ver: SrpVerifier,
@@ -634,6 +695,10 @@ fn run(ctx: &mut Ctx, op: &str, a: &Args) -> Res {
                 a.arr::<32>(ctx, "salt")?,
             );
             let st = CensusState {
+                mix: a.opt("mixseed").and_then(|t| t.parse::<u64>().ok()).unwrap_or(1),
+                last_proof: None,
+                server: None,
+                client: None,
                 u,
                 p,
                 ver,
@@ -643,9 +708,10 @@ fn run(ctx: &mut Ctx, op: &str, a: &Args) -> Res {
                 w: a.opt("cw").map(|t| t.parse::<u8>().unwrap_or(8)).unwrap_or(8),
             };
             let mut handles = Vec::new();
-            for _ in 0..threads {
+            for ti in 0..threads {
                 let src = src.clone();
                 let mut st = st.clone();
+                st.mix = st.mix.wrapping_add(0x9E37_79B9_7F4A_7C15u64.wrapping_mul(ti as u64 + 1));
                 handles.push(std::thread::spawn(move || -> Result<String, String> {
                     hook::log_enable(true);
                     let dummy_ctx = Ctx {
